@@ -24,7 +24,10 @@ type AbsEnv struct {
 	// Inline, if set, gives the source of a statically resolved callee; a call whose
 	// arguments fold is then evaluated by folding the callee's body (depth-limited).
 	Inline func(f *types.Func) *FuncSrc
-	depth  int
+	// AtomEnv is like Atom but receives the environment that evaluates the expression
+	// (the callee's, when a call was inlined), so that it can fold sub-expressions there.
+	AtomEnv func(en *AbsEnv, e ast.Expr) (constant.Value, bool)
+	depth   int
 }
 
 type absResult struct {
@@ -35,6 +38,11 @@ type absResult struct {
 
 func (env *AbsEnv) expr(e ast.Expr) constant.Value {
 	e = ast.Unparen(e)
+	if env.AtomEnv != nil {
+		if v, ok := env.AtomEnv(env, e); ok {
+			return v
+		}
+	}
 	if env.Atom != nil {
 		if v, ok := env.Atom(e); ok {
 			return v
@@ -137,7 +145,7 @@ func (env *AbsEnv) expr(e ast.Expr) constant.Value {
 				if src := env.Inline(callee); src != nil && src.Body != nil {
 					sig := callee.Type().(*types.Signature)
 					if sig.Params().Len() == len(x.Args) && !sig.Variadic() && sig.Results().Len() == 1 {
-						sub := &AbsEnv{Info: src.Info(), Atom: env.Atom, Inline: env.Inline, OnExec: env.OnExec, SkipLoops: false, depth: env.depth + 1, Locals: map[types.Object]constant.Value{}}
+						sub := &AbsEnv{Info: src.Info(), Atom: env.Atom, AtomEnv: env.AtomEnv, Inline: env.Inline, OnExec: env.OnExec, SkipLoops: false, depth: env.depth + 1, Locals: map[types.Object]constant.Value{}}
 						// parameters of the declaration (the objects the body refers to)
 						var params []*ast.Ident
 						if src.Decl != nil && src.Decl.Type.Params != nil {
